@@ -27,6 +27,13 @@ class Restorer:
         else:
             parent = os.path.dirname(trashed_file.original_location)
             self.write_fs.mkdirs(parent)
+            # a location like 'a/missing/../x' names an existing file only
+            # once its missing components have been created: look again
+            if not overwrite and self.read_fs.path_exists(
+                    trashed_file.original_location):
+                raise IOError(
+                    'Refusing to overwrite existing file "%s".' %
+                    os.path.basename(trashed_file.original_location))
 
         destination = trashed_file.original_location
         if overwrite and os.path.lexists(trashed_file.original_file) and \
